@@ -129,8 +129,11 @@ def viol_dicts(res, pid, predicates=None):
         prop = pid
         if isinstance(detail, dict) and 'property' in detail:
             prop = detail['property']
+        pr = list((predicates or {}).get(rule, []))
+        if isinstance(detail, dict) and detail.get('predicates'):
+            pr += list(detail['predicates'])
         out.append({'rule': rule, 'detail': detail, 'property': prop,
-                    'predicates': list((predicates or {}).get(rule, [])),
+                    'predicates': pr,
                     'choices': list(res.sim.choices),
                     'trace': res.sim.events[-60:]})
     return out
